@@ -280,6 +280,14 @@ func cmdC13(args []string) {
 					}
 					os.WriteFile(filepath.Join(dir, filepath.Base(f)), []byte(s), 0o644)
 				}
+				// assembly stubs (bodies of declarations without one) travel with the package
+				if asm, _ := filepath.Glob(filepath.Join(*ws, gp, "*.s")); len(asm) > 0 {
+					for _, a := range asm {
+						if b, err := os.ReadFile(a); err == nil {
+							os.WriteFile(filepath.Join(dir, filepath.Base(a)), b, 0o644)
+						}
+					}
+				}
 				gvars = append(gvars, gvariant{gp, r, mode, dir})
 				rel, _ := filepath.Rel(*ws, dir)
 				pats = append(pats, "./"+filepath.ToSlash(rel))
